@@ -737,6 +737,77 @@ func c03MultiMany(r *engine.Run) {
 	}
 }
 
+// c03BigRings: rings with 12..16 vertices and a plate with 6 holes (the segment index of the
+// simplicity and ring-interaction tests is several levels deep), and every variant in which one
+// vertex is moved to one of its 8 lattice neighbours (valid, touching, crossing: the oracle decides),
+// each under every ring start for the first ring.
+func c03BigRings(r *engine.Run) {
+	id := universe.Identity
+	disc := []universe.LPt{{2, 0}, {4, 0}, {5, 1}, {6, 2}, {6, 4}, {5, 5}, {4, 6}, {2, 6}, {1, 5}, {0, 4}, {0, 2}, {1, 1}, {2, 0}}
+	spiral := []universe.LPt{{0, 0}, {7, 0}, {7, 7}, {0, 7}, {0, 2}, {5, 2}, {5, 5}, {2, 5}, {2, 4}, {4, 4}, {4, 3}, {1, 3}, {1, 6}, {6, 6}, {6, 1}, {0, 1}, {0, 0}}
+	var stair []universe.LPt
+	for i := 0; i <= 6; i++ {
+		stair = append(stair, universe.LPt{X: i, Y: i}, universe.LPt{X: i + 1, Y: i})
+	}
+	stair = append(stair, universe.LPt{X: 7, Y: 7}, universe.LPt{X: 0, Y: 7}, universe.LPt{X: 0, Y: 0})
+	plate := [][]universe.LPt{{{0, 0}, {7, 0}, {7, 5}, {0, 5}, {0, 0}}}
+	for i := 0; i < 3; i++ {
+		for j := 0; j < 2; j++ {
+			x, y := 1+2*i, 1+2*j
+			plate = append(plate, []universe.LPt{{x, y}, {x, y + 1}, {x + 1, y + 1}, {x + 1, y}, {x, y}})
+		}
+	}
+	type job struct{ rings [][]universe.LPt }
+	var jobs []job
+	for _, base := range [][][]universe.LPt{{disc}, {spiral}, {stair}, plate} {
+		jobs = append(jobs, job{base})
+		for ri := range base {
+			for vi := 0; vi+1 < len(base[ri]); vi++ {
+				for dx := -1; dx <= 1; dx++ {
+					for dy := -1; dy <= 1; dy++ {
+						if dx == 0 && dy == 0 {
+							continue
+						}
+						v := make([][]universe.LPt, len(base))
+						for k := range base {
+							v[k] = append([]universe.LPt{}, base[k]...)
+						}
+						v[ri][vi].X += dx
+						v[ri][vi].Y += dy
+						if vi == 0 {
+							v[ri][len(v[ri])-1] = v[ri][vi]
+						}
+						jobs = append(jobs, job{v})
+					}
+				}
+			}
+		}
+	}
+	var valid atomic.Int64
+	done := r.Parallel(len(jobs), func(i int) {
+		rings := jobs[i].rings
+		g := id.Polygon(rings...).AsGeometry()
+		r.States.Add(1)
+		want, _ := c03Compare(r, g, "wkt", "many-vertex ring, one vertex moved")
+		if want {
+			valid.Add(1)
+		}
+		// ring start / direction of the first ring must not matter
+		m := len(rings[0]) - 1
+		for s := 1; s < m; s += 3 {
+			v := append([][]universe.LPt{rotateRing(rings[0], s, s%2 == 1)}, rings[1:]...)
+			r.Transitions.Add(1)
+			if ok, msg, pnc := libValid(id.Polygon(v...).AsGeometry()); pnc != nil || ok != want {
+				r.Violation("C03/representation.bigRing", "wkt", wktCase{id.Polygon(v...).AsGeometry().AsText(), "rotation of " + g.AsText()}, fmt.Sprint(msg, pnc))
+			}
+		}
+		r.Nontrivial("big " + g.AsText())
+	})
+	if done {
+		r.Bound(fmt.Sprintf("many-vertex rings (12-vertex disc, 16-vertex spiral, 16-vertex staircase, plate with 6 holes) and every one-vertex move to a lattice neighbour: %d polygons (%d valid), each under every third ring start", len(jobs), valid.Load()))
+	}
+}
+
 func c03NonFinite(r *engine.Run) {
 	shapes := universe.Shapes(1, 2)
 	bads := []float64{math.NaN(), math.Inf(1), math.Inf(-1)}
@@ -865,6 +936,7 @@ func c03Main(r *engine.Run) {
 	c03ManyHoles(r)
 	c03Multi(r)
 	c03MultiMany(r)
+	c03BigRings(r)
 	c03Rings(r)
 }
 
